@@ -88,23 +88,18 @@ func (e *Encoder) writeMap(data interface{}) (int, error) {
 	// object data MUST not be unpacked
 	vv := reflect.ValueOf(data)
 
+	// a nil or empty map is written as null: it is not a reference target, so it must not take an ordinal
+	if uv := UnpackPtrValue(vv); uv.Kind() == reflect.Ptr || (uv.Kind() == reflect.Map && uv.Len() == 0) {
+		e.writeBT(_nilTag)
+		return 0, nil
+	}
+
 	// check ref
 	if n, ok := e.checkEncodeRefMap(vv); ok {
 		return e.writeRef(n)
 	}
 
 	vv = UnpackPtrValue(vv)
-	// check nil map
-	if vv.Kind() == reflect.Ptr && !vv.Elem().IsValid() {
-		e.writeBT(_nilTag)
-		return 0, nil
-	}
-
-	keys := vv.MapKeys()
-	if len(keys) == 0 {
-		e.writeBT(_nilTag)
-		return 0, nil
-	}
 
 	typ := vv.Type()
 
